@@ -510,8 +510,53 @@ def inline_private_helpers(f: "FuncInfo", depth: int = 3, methods: bool = False)
             out.append(st)
         return out
 
+    # helpers that are a single `return <expr>` are substituted wherever they are called in an
+    # expression (arguments bound by substitution; an argument used more than once must be simple)
+    def inline_expr_calls(tree, level=0):
+        class T(ast.NodeTransformer):
+            def visit_Call(self, c):  # noqa: N802
+                self.generic_visit(c)
+                g = helper_call(c)
+                if g is None or level >= depth:
+                    return c
+                body = g.body_without_docstring()
+                if len(body) != 1 or not isinstance(body[0], ast.Return) or body[0].value is None:
+                    return c
+                a = g.node.args
+                params = [x.arg for x in a.posonlyargs + a.args + a.kwonlyargs]
+                if g.cls is not None and params and params[0] == "self":
+                    params = params[1:]
+                if any(kw.arg is None for kw in c.keywords) or len(c.args) > len(params):
+                    return c
+                binds = dict(zip(params, c.args))
+                for kw in c.keywords:
+                    binds[kw.arg] = kw.value
+                pos = a.posonlyargs + a.args
+                for prm, d in zip(pos[len(pos) - len(a.defaults):], a.defaults):
+                    binds.setdefault(prm.arg, d)
+                if any(prm not in binds for prm in params):
+                    return c
+                expr = body[0].value
+                for prm in params:
+                    uses = sum(1 for n in ast.walk(expr) if isinstance(n, ast.Name) and n.id == prm)
+                    arg = binds[prm]
+                    simple = isinstance(arg, (ast.Name, ast.Constant)) or (isinstance(arg, ast.Attribute) and isinstance(arg.value, ast.Name))
+                    if uses > 1 and not simple:
+                        return c
+
+                class Sub(ast.NodeTransformer):
+                    def visit_Name(self, n):  # noqa: N802
+                        if n.id in binds and isinstance(n.ctx, ast.Load):
+                            return _copy.deepcopy(binds[n.id])
+                        return n
+
+                return ast.copy_location(Sub().visit(_copy.deepcopy(expr)), c)
+
+        return T().visit(tree)
+
     node = _copy.deepcopy(f.node)
     node.body = process(node.body, 0)
+    node = inline_expr_calls(node)
     return ast.fix_missing_locations(node)
 
 def execution_condition(func: ast.AST, stmt: ast.stmt, stop_at=(ast.For, ast.While, ast.FunctionDef)):
